@@ -175,7 +175,7 @@ def siteUpdates : List PanicSite := [
     "`Unexpected symbol type`: in the refined model of `compile_production_equation` (`partsOf`/`equationOk`, symbols with the deprecated variants) every part whose first symbol is a terminal consists of terminals only, so `create` sees `Symbol::T` only; the other caller (follow.rs `update_production_equations`) runs the same grouping fold (parts tagged with the symbol index) and maps `create` over a part only behind the same test of its first symbol. On the framework's symbols the refined fold computes the parts of `KS.compileParts` (`compile_production_equation_refines`)"⟩,
   ⟨"analysis/k_decision.rs", "FirstCache::get", "index", 3, "decision", .theorem,
     ["ParolModel.Panic.site_first_cache_get_index", "ParolModel.Panic.pre_established_decision"],
-    "`self.0[k]` on MAX_K + 1 slots: in the guarded model (`firstCodeG` … `calculateKTuplesG`, slot test at every `get`) all requests of `calculate_k_tuples(max_k)` are for k ≤ max_k, so no index panic for max_k ≤ MAX_K — which `Builder::max_lookahead` establishes; the public `calculate_lookahead_dfas(cfg, 11)` does panic (finding F37, `f37_witness`)"⟩,
+    "`self.0[k]` on MAX_K + 1 slots: in the guarded model (`firstCodeG` … `calculateKTuplesG`, slot test at every `get`) all requests of `calculate_k_tuples(max_k)` are for k ≤ max_k, so no index panic for max_k ≤ MAX_K — which `Builder::max_lookahead` establishes (the `parol decidable` tool, the only caller of `explain_conflicts`, tests `max_k > MAX_K` itself); the public `calculate_lookahead_dfas(cfg, 11)` does panic (finding F37, `f37_witness`)"⟩,
   ⟨"analysis/k_decision.rs", "FollowCache::get", "index", 3, "decision", .theorem,
     ["ParolModel.Panic.site_follow_cache_get_index", "ParolModel.Panic.pre_established_decision"],
     "as `FirstCache::get`"⟩,
